@@ -190,7 +190,8 @@ def match_known(prop, sig, known):
     for k in known:
         if k.get("property") != prop or k.get("status") == "fixed":
             continue
-        if all(sig.get(f) == v for f, v in k.get("match", {}).items()):
+        alts = k.get("match_any") or [k.get("match", {})]
+        if any(m and all(sig.get(f) == v for f, v in m.items()) for m in alts):
             return k
     return None
 
@@ -223,16 +224,23 @@ class Verdicts:
         self.violations = []      # (sig, replay_path)
         self.known_hits = {}      # finding id -> count
         self.inconclusive = []
+        self.by_sig = {}          # signature -> [sig, replay path, count]
 
     def fail(self, sig, replay_payload, name):
         k = match_known(self.prop, sig, self.known)
         if k:
             self.known_hits[k["id"]] = self.known_hits.get(k["id"], 0) + 1
             return
-        if len(self.violations) < 25:
+        key = json.dumps(sig, sort_keys=True)
+        if key in self.by_sig:
+            self.by_sig[key][2] += 1
+            self.violations.append((sig, self.by_sig[key][1]))
+            return
+        if len(self.by_sig) < 12:
             path = write_replay(self.prop, name, replay_payload)
         else:
-            path = self.violations[-1][1]
+            path = next(iter(self.by_sig.values()))[1]
+        self.by_sig[key] = [sig, path, 1]
         self.violations.append((sig, path))
 
     def finish(self):
@@ -240,11 +248,11 @@ class Verdicts:
             if k["id"] in self.known_hits:
                 print("KNOWN-FINDING: property=%s %s (%d cases; %s)" % (self.prop, k["what"], self.known_hits[k["id"]], k["id"]))
         seen = set()
-        for sig, path in self.violations:
+        for key, (sig, path, n) in self.by_sig.items():
             if path in seen:
                 continue
             seen.add(path)
             print("VIOLATION property=%s replay=%s" % (self.prop, path))
-            log("  ", json.dumps(sig)[:400])
+            log("   %d case(s) like %s" % (n, json.dumps(sig)[:400]))
         sys.stdout.flush()
         return 1 if self.violations else 0
